@@ -35,6 +35,9 @@ def main(argv=None):
     try:
         repo = Repo(args.repo)
         res = Result(prop)
+        if getattr(repo, 'lifted', None):
+            res.note('recorded methods that became module-level functions, judged as the methods they were: %s' % ', '.join(
+                '%s (now %s())' % (o, n) for n, o in sorted(repo.lifted.items())))
         if getattr(repo, 'renamed', None):
             res.note('renamed methods judged under their recorded names: %s' % ', '.join(
                 '%s (now %s)' % (o, n) for n, o in sorted(repo.renamed.items())))
